@@ -93,7 +93,7 @@ func (x *Exec) paramValue(st *State, name string, t types.Type) Value {
 	return tv
 }
 
-func (x *Exec) Verify(fn *ssa.Function, ct *Contract) *FuncReport {
+func (x *Exec) Verify(fn *ssa.Function, ct *Contract) (rep *FuncReport) {
 	x.top = fn
 	x.topC = ct
 	x.obls = nil
@@ -106,7 +106,7 @@ func (x *Exec) Verify(fn *ssa.Function, ct *Contract) *FuncReport {
 	x.covers = map[string]bool{}
 	x.topLets = map[string]SV{}
 	x.nopanic = ct != nil && ct.Opts["nopanic"]
-	rep := &FuncReport{Key: x.topKey(), Func: fn.String()}
+	rep = &FuncReport{Key: x.topKey(), Func: fn.String()}
 	defer func() {
 		if r := recover(); r != nil {
 			x.unverified = fmt.Sprintf("engine panic: %v", r)
@@ -339,10 +339,12 @@ func (x *Exec) checkFrame(ct *Contract, env *cenv, o Outcome, okGuard string, pi
 			continue
 		}
 		// array with listed keys: any other key is unchanged (skolemised)
-		ks := x.enc.Sort(gi.KeyTy)
+		var ks string
 		if gi.KeyTy == nil {
 			parts := splitTop(gi.Sort[1 : len(gi.Sort)-1])
 			ks = parts[1]
+		} else {
+			ks = x.enc.Sort(gi.KeyTy)
 		}
 		k := x.enc.FreshConst("framekey", ks)
 		var diff []string
